@@ -11,7 +11,12 @@ from . import ramses_model as rm
 # ------------------------------------------------------------------ strategies
 @st.composite
 def level_preds(draw, levelmax):
-    t = draw(st.sampled_from(["le", "le", "lt", "eq", "band", "ge"]))
+    t = draw(st.sampled_from(["le", "le", "lt", "eq", "band", "ge", "ne", "set"]))
+    if t == "ne":
+        return {"t": t, "k": draw(st.integers(1, levelmax)), "as_int": False}
+    if t == "set":
+        return {"t": t, "ks": sorted(draw(st.lists(st.integers(1, levelmax), min_size=1, max_size=3, unique=True))),
+                "as_int": False}
     if t == "band":
         a = draw(st.integers(0, max(levelmax - 1, 0)))
         b = draw(st.integers(a + 2, levelmax + 2))
@@ -33,6 +38,13 @@ def level_accepts(p, l):
         return l == p["k"]
     if t == "ge":
         return l >= p["k"]
+    if t == "ne":
+        return l != p["k"]
+    if t == "set":
+        out = (l == p["ks"][0])
+        for k in p["ks"][1:]:
+            out = out | (l == k)
+        return out
     return (l > p["a"]) & (l < p["b"])
 
 
